@@ -56,6 +56,8 @@ def run_case(tape, tier):
                                 calls=[list(e) for e in run.trace if e[0].startswith(("extend_", "remove_"))])
     res.event_digest = sched.trace_digest(run)
     res.scen_digest = digest(dict(p=sched.prog_readable(prog), c=[list(e) for e in calls]))
+    if sched.check_runaway(run, res):
+        return res
     if run.result != ("return",):
         res.violate("unexpected-raise", "program without raising doers raised %r" % (run.result,))
         return res
